@@ -52,7 +52,13 @@ INT_RANGE = {
 #                   with nullable_union also "twins": the same nullable union in >= 2 required positions
 #   nullable_typearray  a nullable scalar member written {"type": ["integer","null"], "minimum": 1} in JSON Schema
 #                   (field flag "nullta"; cog's front-end drops the constraints of that shape: known finding)
+#   alias_of_struct a definition that is a plain alias of a struct with a constrained member (`#Alias: #Child`,
+#                   Go `type Alias = Child`) used as the type of a member / array item / map value
+#   plural_twins    sibling members `rule: {...}` and `rules: [{...}]`: an inline struct and a list of inline structs
+#                   with different properties whose names differ by the plural "s"
+#   nullable_named_dunion  a nullable reference to a NAMED union of structs (`oneOf[$ref Shape, null]`, `#Shape | null`)
 EXTRA_FEATURES = ("case_twins", "nullable_union", "repeat_union")
+SHAPE_FEATURES = ("alias_of_struct", "plural_twins", "nullable_named_dunion")
 FRONTEND_FEATURES = ("nullable_typearray",)
 ALL_FEATURES = ("bool", "int", "float", "string", "datetime", "any", "const", "enum", "array", "map", "ref",
                 "struct", "union", "dunion", "recursive", "nullable", "bounds", "widths", "alias")
@@ -427,6 +433,35 @@ class SrcGen:
                 fields.append({"name": n_, "t": dict(copy.deepcopy(u), nullform=form), "req": i < 2 or r.random() < 0.5,
                                "null": i < 2 or r.random() < 0.5})
                 taken.add(n_)
+        if self.has("alias_of_struct") and r.random() < (0.3 if depth == 0 else 0.08):
+            child = self.fresh("S")
+            cf = [{"name": "id", "t": {"k": "int", "w": "int64", "ge": 1}, "req": True, "null": False},
+                  {"name": "label", "t": {"k": "string", "minlen": 2}, "req": r.random() < 0.5, "null": False}]
+            self.add_def(child, {"k": "struct", "fields": cf})
+            alias = self.fresh("A")
+            self.defs.append({"name": alias, "t": {"k": "ref", "name": child}})
+            ref = {"k": "ref", "name": alias}
+            for n_, t_ in r.sample([("aliased", ref), ("aliasedList", {"k": "array", "of": ref}),
+                                    ("aliasedMap", {"k": "map", "of": ref})], r.choice([1, 2, 3])):
+                if n_.lower() not in taken:
+                    fields.append({"name": n_, "t": t_, "req": r.random() < 0.6, "null": False})
+                    taken.add(n_.lower())
+        if self.has("plural_twins") and r.random() < (0.3 if depth == 0 else 0.08):
+            one, many = r.choice([("rule", "rules"), ("target", "targets"), ("step", "steps")])
+            if one not in taken and many not in taken:
+                fields.append({"name": one, "req": r.random() < 0.7, "null": False, "t": {"k": "struct", "fields": [
+                    {"name": "action", "t": {"k": "string"}, "req": r.random() < 0.5, "null": False},
+                    {"name": "id", "t": {"k": "int", "w": "int64"}, "req": True, "null": False}]}})
+                fields.append({"name": many, "req": r.random() < 0.7, "null": False, "t": {"k": "array", "of": {"k": "struct", "fields": [
+                    {"name": "expr", "t": {"k": "string"}, "req": True, "null": False}]}}})
+                taken |= {one, many}
+        if self.has("nullable_named_dunion") and self.has("dunion") and self.fmt != "openapi" \
+                and r.random() < (0.3 if depth == 0 else 0.08) and "shape" not in taken:
+            du = self.dunion(depth)
+            uname = self.fresh("U")
+            self.defs.append({"name": uname, "t": du})
+            fields.append({"name": "shape", "t": {"k": "ref", "name": uname}, "req": r.random() < 0.6, "null": True})
+            taken.add("shape")
         if self.has("case_twins") and r.random() < (0.22 if depth == 0 else 0.1):
             # two properties whose names differ only in letter case, exactly one of them required
             a, b = r.choice([("userName", "username"), ("ID", "id"), ("fooBar", "foobar"), ("ab", "aB"), ("keyId", "keyid")])
